@@ -117,6 +117,26 @@ func RunC15(r *core.Run) {
 		}
 		C := gen.URI(rr)
 		a, b, c := []byte(A.String()), []byte(B.String()), []byte(C.String())
+		if rr.Intn(4) == 0 {
+			// an unrelated earlier comparison that failed half-way (malformed second list)
+			// must not influence this one
+			// (same user/host/port and parameters as a, so that the comparison gets as far as the lists)
+			bp := A.Clone()
+			switch rr.Intn(4) {
+			case 0:
+				bp.Hdrs = []gen.KV{{K: "subject", V: "a=b", HasVal: true}}
+			case 1:
+				bp.Hdrs = append(bp.Hdrs, gen.KV{K: "b", V: "\"open", HasVal: true})
+			case 2:
+				bp.Params = append(bp.Params, gen.KV{K: "x", V: "a=b", HasVal: true})
+			default:
+				bp.Params = append([]gen.KV{{K: "p", V: "\"open", HasVal: true}}, bp.Params...)
+			}
+			bad := []byte(bp.String())
+			rawCmp(a, bad, 0)
+			rawCmp(bad, a, 0)
+			w.Inc("poisoned_predecessor")
+		}
 		var pa, pb sipsp.PsipURI
 		ea, _ := sipsp.ParseURI(a, &pa)
 		eb, _ := sipsp.ParseURI(b, &pb)
@@ -370,6 +390,25 @@ func RunC15(r *core.Run) {
 			w.Eval(3)
 			if x.pan == "" && (x.eq || y.eq || !z.eq) {
 				fail("long-list-one-value-changed", fmt.Sprintf("%d parameters / %d headers, one value changed: equal=%v/%v, with that component skipped equal=%v", np, nh, x.eq, y.eq, z.eq), bb)
+				return
+			}
+		}
+		// more parameters than the 100-entry scratch on one side only: still symmetric
+		if np > 0 {
+			big := A.Clone()
+			ch := rr.Intn(len(big.Params))
+			changed := big.Params[ch]
+			changed.V, changed.HasVal = "CHANGED", true
+			big.Params = append(big.Params[:ch:ch], big.Params[ch+1:]...)
+			for i := 0; len(big.Params) < 101+rr.Intn(40); i++ {
+				big.Params = append(big.Params, gen.KV{K: fmt.Sprintf("e%dz", i), V: "1", HasVal: true})
+			}
+			big.Params = append(big.Params, changed) // the shared, differing parameter comes last
+			bb := []byte(big.String())
+			x, y := rawCmp(a, bb, sipsp.URICmpSkipHeaders), rawCmp(bb, a, sipsp.URICmpSkipHeaders)
+			w.Eval(2)
+			if x.pan == "" && y.pan == "" && x.eq != y.eq {
+				fail("long-list-symmetric", fmt.Sprintf("%d vs %d parameters: cmp(a,b)=%v cmp(b,a)=%v", np, len(big.Params), x.eq, y.eq), bb)
 				return
 			}
 		}
